@@ -407,6 +407,9 @@ func (w *world) life(image Disk, record bool, remote uint32, sched []step, r *ra
 		out.completed, out.stuck = s.finish(pflush)
 	}
 	out.pan, out.refuse, out.ndeliv = s.pan, s.refuse, s.ndeliv
+	if out.completed && s.pan == "" && s.bc.BlockHeight() != w.P {
+		out.completed, out.stuck = false, fmt.Sprintf("the module reports the synchronisation as finished at height %d, the sync point is %d", s.bc.BlockHeight(), w.P)
+	}
 	if out.completed && s.pan == "" {
 		_, p := guarded(func() error { out.v = s.judge(); return nil })
 		if p != nil {
@@ -449,6 +452,7 @@ func (d *driver) emitOutcome(w *world, o *runOut, ctx map[string]any, ref *runOu
 		booted := o.openErr == "" && o.initErr == "" && (o.pan == "" || o.stage0 != "")
 		ev("recover", map[string]any{"open_ok": o.openErr == "", "init_ok": o.initErr == "", "booted": booted,
 			"err": short(o.openErr + o.initErr), "panic": short(map[bool]string{true: "", false: o.pan}[booted]),
+			"pool_panic": !booted && strings.Contains(o.pan, "failed to get MPT node from the pool"),
 			"reported": o.stage0, "height": o.height0, "claim_ok": o.claimOK || !booted})
 		if !booted {
 			return
@@ -588,7 +592,7 @@ func (d *driver) runWorld(wi int, long bool, scheds [][]step) {
 			facts = append(facts, f)
 			images = append(images, img.Clone())
 			d.tr.Emit(map[string]any{"event": "batch", "world": wi, "run": si, "idx": b.Idx, "class": c, "label": b.Label, "during": b.Stage,
-				"disk": f, "prev": before, "touch": touch(b), "kind": b.Kind})
+				"disk": f, "touch": touch(b), "kind": b.Kind, "p": w.P, "page": 2000})
 			d.res.Count([]any{"batch", c, b.Label, touch(b)})
 			before = f
 		}
